@@ -468,6 +468,9 @@ func searchMain(t *testing.T, scs []Scenario) int {
 		if res.Sim.Stalls > 0 {
 			wr.Faults["task-stall"] += res.Sim.Stalls
 		}
+		if res.Sim.Pauses > 0 {
+			wr.Faults["slow-task"] += res.Sim.Pauses
+		}
 		wr.Strategies[[]string{"uniform", "sticky50", "sticky90", "pct1", "pct2", "pct3"}[res.Sim.Strategy]]++
 		for f, n := range res.Ctx.Faults {
 			wr.Faults[f] += n
